@@ -1,6 +1,7 @@
 import WhVerif.Util.Proto
 import WhVerif.Model.C03
 import WhVerif.Model.C03Pipe
+import WhVerif.Model.C03Header
 import WhVerif.Model.C04Json
 import WhVerif.Spec.C03
 namespace WhVerif.Driver.C03
@@ -174,8 +175,54 @@ def handlePipe (op : String) (j : Json) : Option Json :=
     | _, _ => some badInput
   else none
 
+/-- `c03.pstype`: {decls: [[key, number, type], ...], ints: [n, ...]} -> the decision of `missing_headers` per declaration as coded
+and as repaired (number: a JSON number, or "." / "A" / "G" / "R"), the PS type of the output header for every PS declaration, and
+the text of every integer under `Type=Integer` / `Type=Float` with what the decimal reader makes of the latter -/
+def parseNum (j : Json) : Option Header.Num :=
+  match asNat? j with
+  | some k => some (.n k)
+  | none => match asStr? j with
+    | some "." => some .dot
+    | some "A" => some .A
+    | some "G" => some .G
+    | some "R" => some .R
+    | _ => none
+
+def parseTyp (s : String) : Option Header.Typ :=
+  if s == "Integer" then some .integer else if s == "Float" then some .float
+  else if s == "String" then some .string else if s == "Character" then some .character else none
+
+def decisionStr : Header.Decision → String
+  | .accept => "accept" | .rewrite => "rewrite" | .refuse => "refuse" | .notPredefined => "not-predefined"
+
+def typJson : Option Header.Typ → Json
+  | none => Json.null
+  | some .integer => Json.str "Integer" | some .float => Json.str "Float"
+  | some .string => Json.str "String" | some .character => Json.str "Character"
+
+def handlePsType (j : Json) : Option Json :=
+  let decls := (getList? j "decls").bind (·.mapM (fun e => do
+    match ← asArr? e with
+    | [k, n, t] => some (← asStr? k, (⟨← parseNum n, ← parseTyp (← asStr? t)⟩ : Header.Decl))
+    | _ => none))
+  match decls, getNatList? j "ints" with
+  | some ds, some ns =>
+    some (Json.mkObj [
+      ("coded", ofList (fun (kd : String × Header.Decl) => Json.str (decisionStr (Header.formatRule kd.1 kd.2))) ds),
+      ("fixed", ofList (fun (kd : String × Header.Decl) => Json.str (decisionStr (Header.formatRuleFixed kd.1 kd.2))) ds),
+      ("ps_out_coded", ofList (fun (kd : String × Header.Decl) =>
+          if kd.1 == "PS" then typJson (Header.psOutputType Header.formatRule (some kd.2)) else Json.str "-") ds),
+      ("ps_out_fixed", ofList (fun (kd : String × Header.Decl) =>
+          if kd.1 == "PS" then typJson (Header.psOutputType Header.formatRuleFixed (some kd.2)) else Json.str "-") ds),
+      ("ps_out_absent", typJson (Header.psOutputType Header.formatRule none)),
+      ("as_integer", ofList (fun n => Json.str (String.ofList (Header.renderToken .integer n))) ns),
+      ("as_float", ofList (fun n => Json.str (String.ofList (Header.renderToken .float n))) ns),
+      ("float_reads_back", ofList (fun n => ofOptNat (Header.parseDec (Header.renderToken .float n))) ns)])
+  | _, _ => some badInput
+
 def handle (op : String) (j : Json) : Option Json :=
-  if op == "c03.find_components" then
+  if op == "c03.pstype" then handlePsType j
+  else if op == "c03.find_components" then
     match getNatList? j "phased", parseReads j "reads" with
     | some phased, some reads =>
       let master := (optField j "master").bind natList?
